@@ -27,7 +27,7 @@ def scratch_root():
 
 
 def new_workdir(tag):
-    d = tempfile.mkdtemp(prefix=tag + '-', dir=scratch_root())
+    d = tempfile.mkdtemp(prefix=re.sub(r'[^A-Za-z0-9_.-]', '_', tag) + '-', dir=scratch_root())
     for fn in os.listdir(SPEC_DIR):
         if fn.endswith('.tla'):
             shutil.copy(os.path.join(SPEC_DIR, fn), os.path.join(d, fn))
@@ -70,6 +70,8 @@ def run(module, cfg_text=None, cfg_file=None, workdir=None, workers=16, timeout=
         extra=(), env=None, heap='8g', tag=None, files=None, deque=False):
     """Run TLC.  `cfg_text` (written to <module>.cfg in workdir) or `cfg_file`
     (name under spec/cfg).  `files`: {name: text} extra files for the workdir."""
+    if tag:
+        tag = re.sub(r'[^A-Za-z0-9_.-]', '_', tag)
     wd = workdir or new_workdir(tag or module)
     if cfg_text is None:
         with open(os.path.join(SPEC_DIR, 'cfg', cfg_file)) as f:
